@@ -272,8 +272,19 @@ def templates(rng, n, span):
         (["choice", "EnforceChoice"], [], {"choices": [dna(span), dna(span)]}),
         (["choice", "EnforceChoice"], [dna(span) + "|" + dna(span, "ATGCN")], {}),
     ]
+    # documented shorthand strings on the label side, their documented meaning as explicit parameters on the API side
+    T += [
+        (["gc", "EnforceGCContent"], [], {"mini": 0.4, "maxi": 0.6}, "40-60%"),
+        (["gc", "EnforceGCContent"], [], {"mini": 0.3, "maxi": 0.7, "window": 6}, "30-70%/6bp"),
+        (["gc", "EnforceGCContent"], [], {"target": 0.5, "window": 5}, "50%/5bp"),
+        (["gc", "EnforceGCContent"], [], {"target": 0.45}, "45%"),
+        (["gc", "EnforceGCContent"], [], {"mini": 0.25, "maxi": 0.75, "window": 8}, "25-75%, window:8"),
+        (["change", "EnforceChanges"], [], {"amount_percent": 40}, "40%"),
+        (["change", "EnforceChanges"], [], {"minimum_percent": 50}, "minimum=50%"),
+    ]
     if span % 3 == 0 and span >= 3:
         T += [
+            (["harmonize_rca", "HarmonizeRCA"], [], {"species": "h_sapiens", "original_species": "e_coli"}, "e_coli -> h_sapiens"),
             (["cds", "EnforceTranslation"], [], rng.choice([{}, {"genetic_table": "Bacterial"}, {"start_codon": "keep"}])),
             (["use_best_codon", "MaximizeCAI"], [], {"species": rng.choice(["e_coli", "h_sapiens"])}),
             (["use_best_codon", "MaximizeCAI"], [rng.choice(["e_coli", "b_subtilis"])], {}),
@@ -332,8 +343,10 @@ def canon_val(v, depth=0):
         if isinstance(v, (set, frozenset)):
             items = sorted(items, key=repr)
         return (type(v).__name__, tuple(items))
-    if isinstance(v, (int, float, str, bool)) or v is None:
+    if isinstance(v, bool) or v is None or isinstance(v, str):
         return v
+    if isinstance(v, (int, float)):
+        return float(v)      # 50 and 50.0 are the same parameter value
     if hasattr(v, "__dict__") and depth < 3:
         return (type(v).__name__, canon_val(vars(v), depth + 1))
     return type(v).__name__
@@ -363,9 +376,14 @@ def gen_case(rng):
         strand = rng.choice([1, 1, -1, None])     # None: an unstranded feature (records built in Python / Snapgene)
         subs = []
         for _ in range(rng.choice([1, 1, 2, 3])):
-            names, args, kwargs = rng.choice(templates(rng, n, span))
-            subs.append([rng.choice("@~"), rng.choice(names), list(args), dict(kwargs)])
-        label = rng.choice([" & ", "&", " &"]).join(render_sub(rng, *s) for s in subs)
+            tpl = rng.choice(templates(rng, n, span))
+            names, args, kwargs = tpl[:3]
+            sub = [rng.choice("@~"), rng.choice(names), list(args), dict(kwargs)]
+            if len(tpl) > 3:
+                sub.append(tpl[3])
+            subs.append(sub)
+        label = rng.choice([" & ", "&", " &"]).join(
+            ("%s%s(%s)" % (s[0], s[1], s[4])) if len(s) > 4 else render_sub(rng, *s[:4]) for s in subs)
         feats.append(dict(label=label, location=[a, b, strand], field=rng.choice(["label", "label", "note"]), subs=subs))
     return dict(sequence=seq, features=feats, edit_seed=rng.randint(0, 10 ** 6))
 
@@ -385,7 +403,7 @@ def oracle_case(inp, out, tmpdir):
     for d in desc:
         a, b, strand = d["location"]
         feats.append(SeqFeature(FeatureLocation(a, b, strand), type="misc_feature", qualifiers={d.get("field", "label"): d["label"]}))
-        for role, name, args, kwargs in d["subs"]:
+        for role, name, args, kwargs in [x[:4] for x in d["subs"]]:
             # the Python API reads "no strand" as 0
             direct["constraint" if role == "@" else "objective"].append((reg[name], args, kwargs, (a, b, strand or 0)))
 
